@@ -1,6 +1,20 @@
 use vstd::prelude::*;
+use std::iter::Enumerate;
 verus! {
 global size_of usize == 8;
+
+// ---- trusted std model: Enumerate over a slice iterator ----
+#[verifier::external_type_specification]
+#[verifier::external_body]
+#[verifier::reject_recursive_types(I)]
+pub struct ExEnumerate<I>(Enumerate<I>);
+pub uninterp spec fn en_items<I: Iterator>(e: &Enumerate<I>) -> Seq<I::Item>;
+pub uninterp spec fn en_pos<I: Iterator>(e: &Enumerate<I>) -> int;
+pub assume_specification<I: Iterator> [Enumerate::<I>::next] (e: &mut Enumerate<I>) -> (r: Option<(usize, I::Item)>)
+    ensures en_items(final(e)) == en_items(old(e)),
+        0 <= en_pos(old(e)) <= en_items(old(e)).len(), en_items(old(e)).len() <= usize::MAX,
+        en_pos(old(e)) < en_items(old(e)).len() ==> r == Some((en_pos(old(e)) as usize, en_items(old(e))[en_pos(old(e))])) && en_pos(final(e)) == en_pos(old(e)) + 1,
+        en_pos(old(e)) >= en_items(old(e)).len() ==> r is None && en_pos(final(e)) == en_pos(old(e));
 
 type Lps = Vec<usize>;
 pub type TextSlice<'a> = &'a [u8];
@@ -225,6 +239,143 @@ impl<'a> KMP<'a> {
         }
 
         q
+    }
+}
+
+pub struct Matches<'a> {
+    kmp: &'a KMP<'a>,
+    q: usize,
+    text: Enumerate<std::slice::Iter<'a, u8>>,
+}
+
+pub open spec fn deref_seq(t: Seq<&u8>) -> Seq<u8> { Seq::new(t.len(), |i: int| *t[i]) }
+pub open spec fn occurs(p: Seq<u8>, t: Seq<u8>, i: int) -> bool {
+    0 <= i && i + p.len() <= t.len() && t.subrange(i, i + p.len()) == p
+}
+/// index form of pre_suf
+pub open spec fn ps_idx(p: Seq<u8>, s: Seq<u8>, k: int) -> bool {
+    0 <= k <= p.len() && k <= s.len() && forall|i: int| 0 <= i < k ==> p[i] == #[trigger] s[s.len() - k + i]
+}
+proof fn lemma_ps_idx(p: Seq<u8>, s: Seq<u8>, k: int)
+    ensures pre_suf(p, s, k) <==> ps_idx(p, s, k)
+{
+    if pre_suf(p, s, k) {
+        let x = p.subrange(0, k); let y = s.subrange(s.len() - k, s.len() as int);
+        assert forall|i: int| 0 <= i < k implies p[i] == #[trigger] s[s.len() - k + i] by { assert(x[i] == y[i]); }
+    }
+    if ps_idx(p, s, k) {
+        assert forall|i: int| 0 <= i < k implies p.subrange(0, k)[i] == s.subrange(s.len() - k, s.len() as int)[i] by {
+            assert(p[i] == s[s.len() - k + i]);
+        }
+        assert(p.subrange(0, k) =~= s.subrange(s.len() - k, s.len() as int));
+    }
+}
+proof fn lemma_sigma_sound(p: Seq<u8>, s: Seq<u8>, a: u8, q: int, r: int)
+    requires pre_suf(p, s, q), pre_suf(p, p.subrange(0, q).push(a), r)
+    ensures pre_suf(p, s.push(a), r)
+{
+    let w = p.subrange(0, q).push(a); let sa = s.push(a);
+    lemma_ps_idx(p, s, q); lemma_ps_idx(p, w, r); lemma_ps_idx(p, sa, r);
+    assert forall|i: int| 0 <= i < r implies p[i] == #[trigger] sa[sa.len() - r + i] by {
+        let j = w.len() - r + i;   // index into w
+        assert(p[i] == w[j]);
+        if j < q { assert(w[j] == p[j]); assert(p[j] == s[s.len() - q + j]); assert(sa[sa.len() - r + i] == s[s.len() - q + j]); }
+        else { assert(w[j] == a); }
+    }
+}
+proof fn lemma_sigma_max(p: Seq<u8>, s: Seq<u8>, a: u8, q: int, k: int)
+    requires sigma(p, s, q), pre_suf(p, s.push(a), k), k > 0
+    ensures pre_suf(p, p.subrange(0, q).push(a), k)
+{
+    let w = p.subrange(0, q).push(a); let sa = s.push(a);
+    lemma_ps_idx(p, sa, k); lemma_ps_idx(p, s, k - 1); lemma_ps_idx(p, s, q); lemma_ps_idx(p, w, k);
+    // k-1 is a prefix-suffix of s
+    assert forall|i: int| 0 <= i < k - 1 implies p[i] == #[trigger] s[s.len() - (k - 1) + i] by {
+        assert(p[i] == sa[sa.len() - k + i]);
+    }
+    assert(pre_suf(p, s, k - 1));
+    assert(k - 1 <= q);
+    assert forall|i: int| 0 <= i < k implies p[i] == #[trigger] w[w.len() - k + i] by {
+        let j = w.len() - k + i;
+        assert(p[i] == sa[sa.len() - k + i]);
+        if j < q { assert(w[j] == p[j]); assert(p[j] == s[s.len() - q + j]); }
+        else { assert(w[j] == a); assert(sa[sa.len() - k + i] == a); }
+    }
+}
+/// CLRS 32.3: the longest prefix-suffix of s·a is the longest prefix-suffix of P_q·a, q = sigma(s)
+proof fn lemma_sigma_step(p: Seq<u8>, s: Seq<u8>, a: u8, q: int, r: int)
+    requires sigma(p, s, q), sigma(p, p.subrange(0, q).push(a), r)
+    ensures sigma(p, s.push(a), r)
+{
+    lemma_sigma_sound(p, s, a, q, r);
+    assert forall|k: int| #[trigger] pre_suf(p, s.push(a), k) implies k <= r by {
+        if k > 0 { lemma_sigma_max(p, s, a, q, k); }
+    }
+}
+
+impl<'a> Matches<'a> {
+    pub closed spec fn t(&self) -> Seq<u8> { deref_seq(en_items(&self.text)) }
+    pub closed spec fn pos(&self) -> int { en_pos(&self.text) }
+    pub closed spec fn p(&self) -> Seq<u8> { self.kmp.p() }
+    pub closed spec fn wf(&self) -> bool {
+        &&& self.kmp.wf()
+        &&& 0 <= self.pos() <= self.t().len()
+        &&& self.q <= self.p().len()
+        &&& sigma(self.p(), self.t().subrange(0, self.pos()), self.q as int)
+    }
+
+    fn next(&mut self) -> (r: Option<usize>)
+        requires old(self).wf()
+        ensures final(self).wf(), final(self).p() == old(self).p(), final(self).t() == old(self).t(),
+            old(self).pos() <= final(self).pos(),
+            match r {
+                Some(i) => occurs(old(self).p(), old(self).t(), i as int) && i + old(self).p().len() == final(self).pos()
+                    && old(self).pos() < final(self).pos()
+                    && forall|x: int| old(self).pos() < x + old(self).p().len() < final(self).pos() ==> !occurs(old(self).p(), old(self).t(), x),
+                None => final(self).pos() == old(self).t().len()
+                    && forall|x: int| old(self).pos() < x + old(self).p().len() ==> !occurs(old(self).p(), old(self).t(), x),
+            }
+    {
+        let ghost p = self.p(); let ghost t = self.t(); let ghost m = p.len() as int; let ghost pos0 = self.pos();
+        loop
+            invariant self.wf(), self.p() == p, self.t() == t, m == p.len(), m == self.kmp.m, self.kmp == old(self).kmp,
+                pos0 <= self.pos(), t == old(self).t(), p == old(self).p(), pos0 == old(self).pos(),
+                forall|x: int| pos0 < x + m <= self.pos() ==> !occurs(p, t, x),
+            ensures self.pos() == t.len(),
+            decreases t.len() - self.pos()
+        {
+            let ghost e0 = self.pos(); let ghost q0 = self.q as int;
+            match self.text.next() { Some((i, c)) => {
+            self.q = self.kmp.delta(self.q, *c);
+            proof {
+                assert(i == e0 && *c == t[e0]);
+                lemma_sigma_step(p, t.subrange(0, e0), *c, q0, self.q as int);
+                assert(t.subrange(0, e0).push(*c) =~= t.subrange(0, e0 + 1));
+                // occurrence ending at e0 <=> q == m
+                assert forall|x: int| x + m == e0 + 1 implies (occurs(p, t, x) <==> self.q == m) by {
+                    let s1 = t.subrange(0, e0 + 1);
+                    if occurs(p, t, x) {
+                        assert(s1.subrange(s1.len() - m, s1.len() as int) =~= t.subrange(x, x + m));
+                        assert(p.subrange(0, m) =~= p);
+                        assert(pre_suf(p, s1, m));
+                    }
+                    if self.q == m {
+                        assert(pre_suf(p, s1, m));
+                        assert(p.subrange(0, m) =~= p);
+                        assert(s1.subrange(s1.len() - m, s1.len() as int) =~= t.subrange(x, x + m));
+                    }
+                }
+            }
+            if self.q == self.kmp.m {
+                return Some(1 + i - self.kmp.m);
+            }
+            } None => break }
+        }
+        proof {
+            assert forall|x: int| pos0 < x + m implies !occurs(p, t, x) by { }
+        }
+
+        None
     }
 }
 }
